@@ -385,6 +385,28 @@ def run_system(ctx, system, spec, rng, case):
     except BaseException as e:
         if isinstance(e, (KeyboardInterrupt, SystemExit)):
             raise
+    if res is not None:
+        # the sequence is a value: what happens to the tree afterwards (the
+        # caller relabels it, transforms it, throws it away) does not reach it
+        try:
+            names0 = [t.pretty_print() for t in res[1]]
+            sent0 = [tuple(x) for x in res[0]]
+        except Exception:
+            return res      # judged by the contract
+        stack = [live]
+        while stack:
+            x = stack.pop()
+            stack.extend(x.children)
+            x.data['label'] = 'Q' + str(x.data.get('label'))
+            if x.data.get('word') is not None:
+                x.data['word'] = 'q' + x.data['word']
+        ctx.hook('sequence read again after the tree was relabelled')
+        if [t.pretty_print() for t in res[1]] != names0 or \
+                [tuple(x) for x in res[0]] != sent0:
+            ctx.fail('C10:%s-sequence-follows-later-changes-of-the-tree'
+                     % system, case, 'returned %r, after relabelling the tree '
+                     '%r' % (names0[:6], [t.pretty_print()
+                                          for t in res[1]][:6]))
     return res
 
 
@@ -700,6 +722,11 @@ def writer_case(ctx, case, rng):
             return
         trans.append(r)
     dest = ctx.path('.plain')
+    if rng.random() < 0.5:
+        # the destination exists already (an earlier run, another system)
+        common.write(dest, 'Altlast ||| SHIFT SHIFT\n' * rng.randint(1, 3000),
+                     case.get('enc', 'utf-8'))
+        ctx.stratum('writer: destination file existed')
     try:
         R.transitionoutput.plain(trans, dest, case.get('enc', 'utf-8'),
                                  **({'pos': True} if pos else {}))
